@@ -1193,3 +1193,73 @@ func exitActions(f *ssa.Function) []exitAct {
 	}
 	return out
 }
+
+// ---------- error variables ----------
+
+// reachingStore: the one store whose value a load of a local cell reads: it dominates the load and no other store to
+// the cell can execute between them. Named results and `err` variables reused for several calls live in such cells.
+func reachingStore(ld *ssa.UnOp) *ssa.Store {
+	if ld.Op != token.MUL {
+		return nil
+	}
+	al, ok := ld.X.(*ssa.Alloc)
+	if !ok {
+		return nil
+	}
+	var stores []*ssa.Store
+	for _, ref := range *al.Referrers() {
+		switch x := ref.(type) {
+		case *ssa.Store:
+			if x.Addr == ssa.Value(al) {
+				stores = append(stores, x)
+			}
+		case *ssa.UnOp, *ssa.DebugRef:
+		case *ssa.MakeClosure:
+			if !closureOnlyReads(x, al) {
+				return nil
+			}
+		default:
+			return nil // address escapes
+		}
+	}
+	var best *ssa.Store
+	for _, st := range stores {
+		if !instrDominates(st, ld) {
+			continue
+		}
+		if best == nil || instrDominates(best, st) {
+			best = st
+		}
+	}
+	if best == nil {
+		return nil
+	}
+	isOther := func(in ssa.Instruction) bool {
+		st, ok := in.(*ssa.Store)
+		return ok && st != best && st.Addr == ssa.Value(al)
+	}
+	if pathHas(best, ld, isOther) {
+		return nil
+	}
+	return best
+}
+
+// callOfValue: v is the idx-th result of call c: the call itself, an extract of it, or a load of a local cell that
+// holds it at this point (err = check(…); if err != nil …).
+func callOfValue(v ssa.Value) (c *ssa.Call, idx int) {
+	switch y := v.(type) {
+	case *ssa.Call:
+		return y, 0
+	case *ssa.Extract:
+		if cc, ok := y.Tuple.(*ssa.Call); ok {
+			return cc, y.Index
+		}
+	case *ssa.UnOp:
+		if st := reachingStore(y); st != nil {
+			if _, isLoad := st.Val.(*ssa.UnOp); !isLoad {
+				return callOfValue(st.Val)
+			}
+		}
+	}
+	return nil, 0
+}
